@@ -461,6 +461,45 @@ VARIANTS += [
 ]
 
 
+# round 2: rules added for the second batch of independent seeds and for the defects they led to
+VARIANTS += [
+    ("C06-rs-carry-gt", "C06", RSH, "            } else if dtinfo1.hour >= 24 {", "            } else if dtinfo1.hour > 24 {", "UTCSHIFT.rs"),
+    ("C06-rs-carry-sec-gt", "C06", RSH, "            } else if dtinfo1.second >= 60 {", "            } else if dtinfo1.second > 60 {", "UTCSHIFT.rs"),
+    ("C06-rs-no-roll", "C06", RSH, "            dtinfo1.normalize_date();\n", "", "UTCSHIFT.rs"),
+    ("C06-rs-no-roll-2", "C06", RSH, "            dtinfo2.normalize_date();\n", "", "UTCSHIFT.rs"),
+    ("C06-rs-roll-month-wrap", "C06", RSH, "            if self.month > 12 {", "            if self.month >= 12 {", "UTCSHIFT.roll"),
+    ("C06-rs-roll-prev-len", "C06", RSH, "            self.month -= 1;\n\n            if self.month < 1 {\n                self.month = 12;\n                self.year -= 1;\n            }\n\n            self.day = DAYS_PER_MONTHS", "            self.day = DAYS_PER_MONTHS[usize::from(helpers::is_leap(self.year))][self.month as usize];\n            self.month -= 1;\n\n            if self.month < 1 {\n                self.month = 12;\n                self.year -= 1;\n            }\n\n            let _unused = DAYS_PER_MONTHS", "UTCSHIFT.roll"),
+    ("C06-rs-order-no-us", "C06", RSH, "            self.second,\n            self.microsecond,\n        )\n            .partial_cmp(&(\n                other.year,\n                other.month,\n                other.day,\n                other.hour,\n                other.minute,\n                other.second,\n                other.microsecond,\n            ))", "            self.second,\n        )\n            .partial_cmp(&(\n                other.year,\n                other.month,\n                other.day,\n                other.hour,\n                other.minute,\n                other.second,\n            ))", "ORDER.key"),
+    ("C06-py-shift-guard", "C06", PYH, "                if offset1:\n                    d1 = d1 - offset1", "                if offset1 and offset1 != offset2:\n                    d1 = d1 - offset1", "UTCSHIFT.shift"),
+    ("C06-py-shift-when", "C06", PYH, "            if not in_same_tz or total_days == 0:", "            if not in_same_tz and total_days == 0:", "UTCSHIFT.when"),
+    ("C11-combine-ignore-explicit", "C11", DT, "        dt = datetime.datetime.combine(date, time)\n\n        if tzinfo is not None:\n            # As for the native implementation, an explicit tzinfo\n            # takes precedence over the tzinfo of the time.\n            dt = dt.replace(tzinfo=tzinfo)\n\n        return cls.instance(dt, tz=tzinfo)", "        return cls.instance(datetime.datetime.combine(date, time), tz=tzinfo)", "CTOR.combine"),
+    ("C11-combine-pass-none", "C11", DT, "        dt = datetime.datetime.combine(date, time)\n\n        if tzinfo is not None:\n            # As for the native implementation, an explicit tzinfo\n            # takes precedence over the tzinfo of the time.\n            dt = dt.replace(tzinfo=tzinfo)\n\n        return cls.instance(dt, tz=tzinfo)", "        return cls.instance(datetime.datetime.combine(date, time, tzinfo), tz=tzinfo)", "CTOR.combine"),
+    ("C11-format-endswith", "C11", MIX, '            if "%" in format_spec:', '            if format_spec[0] == "%":', "FORMAT.route"),
+    ("C08-default-month-from-now", "C08", FMT, '            if parsed["year"] is not None:\n                validated["month"] = parsed["month"] or 1', '            if parsed["year"] is not None and parsed["day"] is not None:\n                validated["month"] = parsed["month"] or 1', "DEFAULTS.fill"),
+    ("C08-default-day-value", "C08", FMT, '                validated["day"] = parsed["day"] or 1', '                validated["day"] = parsed["day"] or now.day', "DEFAULTS.fill"),
+    ("C09-factory-swap", "C09", INIT, "        minutes=minutes,\n        hours=hours,\n        weeks=weeks,\n        years=years,", "        minutes=hours,\n        hours=minutes,\n        weeks=weeks,\n        years=years,", "FACTORY.forward"),
+    ("C09-hours-guard", "C09", DUR, "            if abs(seconds) >= 3600:", "            if abs(seconds) > 3600:", "RADIX.guard"),
+    ("C13-rs-rank-days", "C13", RSP, "last_rank >= 4", "last_rank > 4", "ORDER-GUARD.rank"),
+    ("C13-py-days-no-mark", "C13", ISO, "            if \".\" in _days:\n                fractional = True\n", "            if \".\" in _days:\n", "FRACTION.last-only"),
+    ("C07-rs-sep-ordinal", "C07", RSP, "            if self.end() || self.current == ' ' || self.current == 'T' {", "            if self.end() || self.current == 'T' {", "SEPARATOR.pair"),
+    ("C16-dt-nth-message", "C16", DT, "f\" of {WeekDay(day_of_week).name.capitalize()} in {unit}\"", "f\" of {day_of_week.name.capitalize()} in {unit}\"", "DISPATCH.nth-error"),
+    ("C02-gap-seconds-abs", "C02", TZ, "                    + (\n                        (offset_after - offset_before)\n                        if dt.fold\n                        else (offset_before - offset_after)\n                    ),", "                    + _datetime.timedelta(seconds=(offset_after - offset_before).seconds * (1 if dt.fold else -1)),", "UNITS.offset-delta"),
+    ("C15-long-year-inline-wrong", "C15", PYH, "    def p(y: int) -> int:\n        return y + y // 4 - y // 100 + y // 400\n\n    return p(year) % 7 == 4 or p(year - 1) % 7 == 3", "    a = year + year // 4 - year // 100 + year // 400\n\n    return a % 7 == 4 or (a - 1) % 7 == 3", "FORMULA.is_long_year"),
+]
+BENIGN2 = [
+    ("long-year-inline", PYH, ["C15"], [("    def p(y: int) -> int:\n        return y + y // 4 - y // 100 + y // 400\n\n    return p(year) % 7 == 4 or p(year - 1) % 7 == 3", "    a = year + year // 4 - year // 100 + year // 400\n    prev = year - 1\n    b = prev + prev // 4 - prev // 100 + prev // 400\n\n    return a % 7 == 4 or b % 7 == 3")]),
+    ("rs-carry-gt-59", RSH, ["C06"], [("            } else if dtinfo1.second >= 60 {", "            } else if dtinfo1.second > 59 {"), ("            } else if dtinfo2.second >= 60 {", "            } else if dtinfo2.second > 59 {")]),
+    ("default-day-or-order", FMT, ["C08"], [('            if parsed["year"] is not None or parsed["month"] is not None:', '            if parsed["month"] is not None or parsed["year"] is not None:')]),
+    ("format-find", MIX, ["C11"], [('            if "%" in format_spec:', '            if format_spec.find("%") >= 0:')]),
+    ("combine-native-tz-arg", DT, ["C11"], [("        dt = datetime.datetime.combine(date, time)\n\n        if tzinfo is not None:\n            # As for the native implementation, an explicit tzinfo\n            # takes precedence over the tzinfo of the time.\n            dt = dt.replace(tzinfo=tzinfo)\n", "        if tzinfo is not None:\n            dt = datetime.datetime.combine(date, time, tzinfo)\n        else:\n            dt = datetime.datetime.combine(date, time)\n")]),
+    ("closest-abs", TIME, ["C20"], [("        if self.diff(dt1).total_seconds() < self.diff(dt2).total_seconds():", "        if abs(self.diff(dt1).total_seconds()) < abs(self.diff(dt2).total_seconds()):")]),
+    ("minutes-guard-weaker", DUR, ["C09", "C18"], [("            if abs(seconds) >= 60:", "            if abs(seconds) > 0:")]),
+    ("py-shift-is-not-none", PYH, ["C06"], [("                if offset1:\n                    d1 = d1 - offset1", "                if offset1 is not None:\n                    d1 = d1 - offset1")]),
+]
+for _name, _file, _props, _pairs in BENIGN2:
+    for _p in _props:
+        VARIANTS.append((f"{_p}-benign-{_name}", _p, _file, [(a, b) for a, b in _pairs], None, None, None))
+
 # ---------------------------------------------------------------------------
 # independently seeded changes kept under /verif/seeded/<id>/ (see DESIGN 9.2): each must be reported by the check of
 # the property it was written for
